@@ -35,12 +35,13 @@ class SFloat(Sym):
 
 class SStr(Sym):
     """z3 String; `code` is set when the string is known to be one character (code point term)."""
-    __slots__ = ("code", "opaque")
+    __slots__ = ("code", "opaque", "digits_only")
 
     def __init__(self, z, code=None, opaque=False):
         self.z = z
         self.code = code
         self.opaque = opaque      # text the engine deliberately knows nothing about (rendered values, messages)
+        self.digits_only = False  # known to consist of decimal digits (a numeral made by a host formatting function)
 
 
 class SElem(Sym):
